@@ -1,10 +1,115 @@
 import DFV.JsonField
-namespace DFV.Drv
-open Lean DFV
+import DFV.Model.C15
+/-! driver ops of property C15.  The `sqrt` parameter of the model is instantiated with the
+executable `sqrtQ` (exact on rational squares).  Callables are polynomial coefficient
+tables evaluated by the model at the cell centres it computes itself. -/
+namespace DFV.Drv.C15
+open Lean DFV DFV.C15
 
-/-- driver ops of property C15 (stub: no ops yet) -/
+/-- `[{"c": q, "e": [e0, e1, …]}, …]` -/
+def termsOfJson (j : Json) : R (List (Rat × List Nat)) :=
+  listOf (fun t => do
+    let c ← ratOfJson (← fld t "c")
+    let e ← nats t "e"
+    pure (c, e)) j
+
+def nspecOfJson (j : Json) : R NSpec := do
+  let k ← strOfJson (← fld j "k")
+  match k with
+  | "const" => do pure (.const (← ratOfJson (← fld j "v")))
+  | "arr" => do pure (.arr (← ndaOfJson ratOfJson 0 j))
+  | "poly" => do
+      let ts ← termsOfJson (← fld j "terms")
+      pure (.fn (polyEval ts))
+  | _ => throw s!"unknown norm spec kind {k}"
+
+def optNspec (j : Json) (k : String) : R (Option NSpec) :=
+  match fldOpt j k with
+  | none => pure none
+  | some v => some <$> nspecOfJson v
+
+def vspecOfJson (j : Json) : R VSpec := do
+  let k ← strOfJson (← fld j "k")
+  match k with
+  | "scalar" => do pure (.scalar (← ratOfJson (← fld j "v")))
+  | "vec" => do pure (.vec (← rats j "v"))
+  | "arr" => do pure (.arr (← ndaOfJson (listOf ratOfJson) [] j))
+  | "poly" => do
+      let comps ← listOf termsOfJson (← fld j "comps")
+      pure (.fn fun p => comps.map fun ts => polyEval ts p)
+  | _ => throw s!"unknown value spec kind {k}"
+
+def validOfJson (j : Json) : R ValidSpec := do
+  let k ← strOfJson (← fld j "k")
+  match k with
+  | "none" => pure .none
+  | "all" => do pure (.all (← boolOfJson (← fld j "v")))
+  | "arr" => do pure (.arr (← ndaOfJson boolOfJson false j))
+  | "norm" => pure .byNorm
+  | _ => throw s!"unknown valid spec kind {k}"
+
+/-- materialise the arrays (efficiency only) -/
+def forceF (f : Fld) : Fld :=
+  { f with data := f.data.force [], valid := f.valid.force false }
+
+/-- a field together with the norm and orientation the model derives from it -/
+def snapJ (atol : Rat) (f : Fld) : Json :=
+  Json.mkObj [("field", fldToJson f), ("norm", fldToJson (norm sqrtQ f)),
+    ("orientation", fldToJson (orientation sqrtQ atol f))]
+
+def stepOf (atol : Rat) (f : Fld) (j : Json) : R (M Fld) := do
+  let k ← strOfJson (← fld j "k")
+  match k with
+  | "set_norm" => do pure (setNorm sqrtQ f (← optNspec j "spec"))
+  | "update" => do pure (updateValues f (← vspecOfJson (← fld j "value")))
+  | "set_valid" => do pure (setValid sqrtQ atol f (← validOfJson (← fld j "spec")))
+  | _ => throw s!"unknown step {k}"
+
+/-- run the steps; the list ends at the first step that raises -/
+def runSteps (atol : Rat) : Fld → List Json → R (List Json)
+  | _, [] => pure []
+  | f, s :: rest => do
+    match ← stepOf atol f s with
+    | .error e => pure [errJ e]
+    | .ok g =>
+      let g := forceF g
+      let tail ← runSteps atol g rest
+      pure (Json.mkObj [("ok", snapJ atol g)] :: tail)
+
+end DFV.Drv.C15
+
+namespace DFV.Drv
+open Lean DFV DFV.C15 DFV.Drv.C15
+
+/-- driver ops of property C15 -/
 def c15 (op : String) (j : Json) : Option (R Json) :=
   match op with
+  | "sqrt" => some do
+      let x ← ratOfJson (← fld j "x")
+      pure (Json.mkObj [("ok", ratToJson (sqrtQ x))])
+  | "field_prog" => some do
+      -- start from a stored field (taken as state), run steps
+      let f ← fldOfJson (← fld j "field")
+      let atol ← ratOfJson (← fld j "atol")
+      let steps ← arr (← fld j "steps")
+      let out ← runSteps atol f steps.toList
+      pure (Json.mkObj [("ok", Json.mkObj [("init", snapJ atol f), ("steps", Json.arr out.toArray)])])
+  | "ctor_prog" => some do
+      -- Field(mesh, nvdim, value, norm, valid, unit), then steps
+      let mesh ← meshOfJson (← fld j "mesh")
+      let nvdim ← natOfJson (← fld j "nvdim")
+      let value ← vspecOfJson (← fld j "value")
+      let nrm ← optNspec j "norm"
+      let valid ← validOfJson (← fld j "valid")
+      let unit ← optStrOfJson j "unit"
+      let atol ← ratOfJson (← fld j "atol")
+      let steps ← arr (← fld j "steps")
+      match mk? sqrtQ atol mesh nvdim value nrm valid unit with
+      | .error e => pure (errJ e)
+      | .ok f =>
+        let f := forceF f
+        let out ← runSteps atol f steps.toList
+        pure (Json.mkObj [("ok", Json.mkObj [("init", snapJ atol f), ("steps", Json.arr out.toArray)])])
   | _ => none
 
 end DFV.Drv
